@@ -225,6 +225,11 @@ def monitor(script):
                 hit("C15:connection-stuck", f"`{op[:70]}`: node {target} kept the connection but is out of sync")
         if verb == "stallstop" and not skip:
             st = o.get("sendtx")
+            if o.get("stop") == "hung":
+                hit("C15:stop-never-returns",
+                    f"`{op[:70]}`: BitcoinNode.Stop did not return on a node whose outgoing queue is full behind a stalled peer: "
+                    "the connection cannot be closed, Run does not return, a sender stays parked on the queue")
+                return hits
             if st == "panic":
                 hit("C15:parked-sender-hit-by-close",
                     f"`{op[:70]}`: a NodeManager.SendTx parked on the full outgoing queue of a stalled peer panicked (send on closed "
